@@ -228,6 +228,7 @@ pub fn c09(ctx: &Ctx) -> (CheckMeta, Outcome) {
         }
     }
     let mut out = run_all(tasks, threads());
+    out.merge(tail_exact("C09", ctx));
     out.cov.evaluations = out.cov.transitions;
     // non-trivial: transitions that needed a bit beyond the cut (must-error on strict, zero-extension on memzx)
     out.cov.nontrivial = out.cov.per_class.values().sum::<u64>().min(out.cov.obs.values().map(|s| s.len() as u64).sum());
@@ -235,7 +236,7 @@ pub fn c09(ctx: &Ctx) -> (CheckMeta, Outcome) {
         std_meta(
             "C09",
             "fault_enumeration",
-            "a valid mixed-code stream is truncated after EVERY backend word; for every truncation point the reader state space is explored to its fixpoint on strict backends (strict memory reader, vector and slice writers read back, WordAdapter over a truncated Cursor / BufReader, also with a partial trailing word of 1 or W/8-1 bytes after the cut) and on the zero-extended reader; the model classifies every (state, operation): needs only bits inside the data => must return Ok with the model value (incl. table-driven reads whose look-ahead passes the end); needs a bit beyond the end => must return Err on strict backends (never a value, never a panic) and the zero-extended value on MemWordReader::new; alphabet: boundary read_bits/peek/skip, unary, all read variants of 12 codes, io::Read, 21 seek targets; a state reached through a reported error is continued by seeks only (the seek must re-establish a defined state whatever the failed operation consumed); distinct_nontrivial = number of distinct observations",
+            "a valid mixed-code stream is truncated after EVERY backend word; for every truncation point the reader state space is explored to its fixpoint on strict backends (strict memory reader, vector and slice writers read back, WordAdapter over a truncated Cursor / BufReader, also with a partial trailing word of 1 or W/8-1 bytes after the cut) and on the zero-extended reader; the model classifies every (state, operation): needs only bits inside the data => must return Ok with the model value (incl. table-driven reads whose look-ahead passes the end); needs a bit beyond the end => must return Err on strict backends (never a value, never a panic) and the zero-extended value on MemWordReader::new; alphabet: boundary read_bits/peek/skip, unary, all read variants of 12 codes, io::Read, 21 seek targets; a state reached through a reported error is continued by seeks only (the seek must re-establish a defined state whatever the failed operation consumed); plus 'tail-exact' streams: every core code x 84 values whose codeword ends exactly with the last bit of a strict stream (memory, vector read back, Cursor) must decode through every read variant, leave the reader at the end, and the next read must fail; distinct_nontrivial = number of distinct observations",
         ),
         out,
     )
@@ -527,6 +528,43 @@ pub fn c02_long_zero_extension(ctx: &Ctx) -> Outcome {
                 }
                 out
             }));
+        }
+    }
+    run_all(tasks, threads())
+}
+
+
+/// Codewords ending exactly with the last bit of a strict stream (every core code, small values and
+/// table boundaries, every reader kind, every strict backend, 0 or 1 extra leading words).
+pub fn tail_exact(prop: &'static str, ctx: &Ctx) -> Outcome {
+    use crate::model::Code;
+    let mut tasks: Vec<Task> = vec![];
+    for e in End::BOTH {
+        for kind in KINDS {
+            for backend in ["memstrict", "vec", "cursor"] {
+                let diag = ctx.diag.clone();
+                let thorough = ctx.thorough;
+                tasks.push(Box::new(move || {
+                    let mut out = Outcome::new();
+                    out.cov.configs.insert(format!("{}/{}/{}/tail-exact", e.name(), kind, backend));
+                    let mut vals: Vec<u64> = (0..(if thorough { 300 } else { 70 })).collect();
+                    vals.extend([127, 128, 255, 256, 1022, 1023, 1024, 1025, 4095, 65535, 65536, 1 << 20, (1 << 32) - 1, 1 << 40]);
+                    for code in crate::grid::core_codes() {
+                        if matches!(code, Code::MinBin(_)) {
+                            continue;
+                        }
+                        for &v in &vals {
+                            if !crate::grid::in_domain(code, v) || crate::model::ref_len(code, v) > 600 {
+                                continue;
+                            }
+                            for extra in [0usize, 1] {
+                                crate::streams::check_tail_exact(e, kind, backend, code, v, extra, &diag, prop, &mut out);
+                            }
+                        }
+                    }
+                    out
+                }));
+            }
         }
     }
     run_all(tasks, threads())
